@@ -59,16 +59,18 @@ def cases(tier, sd):
             lam = 0.0 if vac_member else [0.0, 0.3, -0.3][(mi + p) % 3]
             for vac in ([True, False] if vac_member else [False]):
                 out.append(dict(member=m, order=p, n1=n1, Lambda=lam,
-                                vacuum=vac, box=box, t0=0.3, mode='open'))
+                                vacuum=vac, box=box, t0=0.3, mode='open',
+                                components=bool((mi + p) % 3 == 0)))
     # periodic members: every order, all stencils centred
-    per_orders = [(6, 12), (8, 12)] if tier == "quick" else [(2, 12), (4, 12), (6, 12), (8, 12), (8, 16)]
+    per_orders = [(6, 12), (8, 16)] if tier == "quick" else [(2, 16), (4, 12), (6, 12), (8, 16), (6, 16)]
     for mi, m in enumerate(members(tier, sd, period=2.0)):
         vac_member = m['family'] == S.PulledBack.name
         for (p, n1) in per_orders:
             lam = 0.0 if vac_member else [0.3, 0.0, -0.3][(mi + p) % 3]
             vac = vac_member and (mi + p) % 2 == 0
             out.append(dict(member=m, order=p, n1=n1, Lambda=lam,
-                            vacuum=vac, box=box, t0=0.3, mode='periodic'))
+                            vacuum=vac, box=box, t0=0.3, mode='periodic',
+                            components=bool((mi + p) % 3 == 1)))
     return out
 
 
@@ -87,6 +89,17 @@ def evaluate(spec, g, keys, extra_inputs=(), rel_kw=None):
     fd = harness.make_fd(g['n'], g['lo'], g['d'], order=spec['order'],
                          boundary=g['boundary'])
     inp = harness.adm_inputs(ex)
+    if spec.get('components'):
+        # the same inputs given component by component (ET style)
+        ij = [(0, 0), (0, 1), (0, 2), (1, 1), (1, 2), (2, 2)]
+        inp = {'alpha': ex['alpha'], 'dtalpha': ex['dtalpha']}
+        for nm, (i, j) in zip(['gxx', 'gxy', 'gxz', 'gyy', 'gyz', 'gzz'], ij):
+            inp[nm] = ex['gammadown3'][i, j]
+        for nm, (i, j) in zip(['kxx', 'kxy', 'kxz', 'kyy', 'kyz', 'kzz'], ij):
+            inp[nm] = ex['Kdown3'][i, j]
+        for i, c in enumerate('xyz'):
+            inp['beta' + c] = ex['betaup3'][i]
+            inp['dtbeta' + c] = ex['dtbetaup3'][i]
     if not spec['vacuum']:
         inp['Tdown4'] = ex['Tdown4']
     for k in extra_inputs:
@@ -98,7 +111,7 @@ def evaluate(spec, g, keys, extra_inputs=(), rel_kw=None):
     return ex, rel
 
 
-def run_case(spec):
+def _run_case(spec):
     res = common.new_result(spec)
     grids, _ = engine.grid_plan(spec)
     vals = []
@@ -113,8 +126,13 @@ def run_case(spec):
     hints = {k: hint for k in DIFFERENTIAL if k != 'st_Gamma_udd4'}
     hints['Kretschmann'] = hint ** 2
     engine.compare(res, spec, vals, DIFFERENTIAL, algebraic=ALGEBRAIC,
-                   tags=[mclass(spec['member']), spec['mode'], spec['order']],
+                   tags=[mclass(spec['member']) + (',comp' if spec.get('components') else ''),
+                         spec['mode'], spec['order']],
                    scale_hints=hints)
     res['monitor']['vacuum_flag_cases'] = int(bool(spec['vacuum']))
     res['monitor']['ricci_from_riemann_arm'] = int(bool(spec['vacuum']))
     return res
+
+
+def run_case(spec):
+    return engine.refine_if_marginal(_run_case, spec, _run_case(spec))
